@@ -296,14 +296,16 @@ prop('C17',
      level='proof',
      claim='Verus, unbounded, on the real start-up folds: handlers::serve keeps, per name, the latest .register of the history up to the '
            'threshold that was not cancelled by an .unregister / .unregistered carrying its handler id (split at the LAST dot of '
-           'the topic, handler id = the registering frame id); generators::serve keeps, per name, the last of .spawn / .spawn.error. '
+           'the topic, handler id = the registering frame id); generators::serve keeps, per name, the last of .spawn / .spawn.error; commands::serve registers every historical .define in '
+           'order and does nothing else before the threshold (no historical .call is executed). '
            'The clause "independently of what exists under the same name in other contexts" is stated as a separate obligation and '
            'fails on this tree (known finding: maps keyed by name only); with all frames in one context the two folds agree (lemma).',
      technique=TECH,
      units=['verus:restart_ops'],
-     obligations=['restart.handlers.*', 'restart.generators.*', 'restart_ops.handlers_replay_fold.body', 'restart_ops.generators_compaction_fold.body'],
+     obligations=['restart.handlers.*', 'restart.generators.*', 'restart.commands.*', 'restart_ops.handlers_replay_fold.body',
+                  'restart_ops.generators_compaction_fold.body', 'restart_ops.commands_startup_fold.body'],
      trusted=['extraction', 'sequential', 'scru128'],
      extra_assumptions=['std HashMap<String,_> (key model, borrowed &str keys), String extensionality, rsplit_once / strip_suffix / ends_with as text '
                         'functions, serde_json::Value accessors -- all assumed; `match suffix {"..." => ..}` is rewritten to the equivalent if/else chain'],
      explanation='The two replay loops are extracted verbatim (await stripped) and verified against fold functions written from the property.',
-     not_decided='starting the retained handlers in id order (sort_by_key), commands::serve, crash restart, non-re-execution of historical triggers')
+     not_decided='starting the retained handlers in id order (sort_by_key), what handle_define does with a definition (nu engine), crash restart')
